@@ -299,6 +299,13 @@ def _drive(ctx, fs, kind, cap, ops, keytype):
                 else:
                     r = run(op, lambda: c.pop(k, "D"))
                     ctx.need(r == "D", "%s/pop/default" % name, "pop(absent, default) returned %r" % (r,))
+                    try:
+                        rn = run(op, lambda: c.pop(k, None))     # None is a default like any other
+                        ctx.need(rn is None, "%s/pop/default" % name, "pop(absent, None) returned %r" % (rn,))
+                    except KeyError:
+                        ctx.fail("%s/pop/none-default-raises" % name, "pop(absent key, None) raised KeyError; a given default is returned, also when it is None")
+                    rg = run(op, lambda: c.get(k))
+                    ctx.need(rg is None, "%s/get/default" % name, "get(absent) returned %r" % (rg,))
             elif op == "popitem":
                 if d:
                     kk, vv = run(op, lambda: c.popitem())
